@@ -3400,6 +3400,27 @@ void Interpreter::call_constructor(const std::string &var_name,
 void Interpreter::call_copy_constructor(const std::string &var_name,
                                         const std::string &struct_type_name,
                                         const std::string &source_var_name) {
+    // メンバーワイズコピー（コピーコンストラクタが無い場合）
+    // 構造体代入（o2 = o1）と同じく、ネストした構造体メンバーや配列メンバーの
+    // 個別変数（"o3.in.a" など）まで再帰的にコピーする
+    auto memberwise_copy = [&]() {
+        Variable *dest_var = find_variable(var_name);
+        Variable *source_var = find_variable(source_var_name);
+        if (!dest_var || !source_var) {
+            return;
+        }
+        // コピー元の struct_members を個別変数の最新値に合わせる
+        sync_struct_members_from_direct_access(source_var_name);
+        source_var = find_variable(source_var_name);
+        dest_var = find_variable(var_name);
+        if (!dest_var || !source_var) {
+            return;
+        }
+        dest_var->struct_members = source_var->struct_members;
+        // 個別変数も（ネストしたメンバーを含めて）更新
+        sync_direct_access_from_struct_value(var_name, *dest_var);
+    };
+
     // コピーコンストラクタを探す（パラメータが1つでconst参照型）
     auto it = struct_constructors_.find(struct_type_name);
     if (it == struct_constructors_.end() || it->second.empty()) {
@@ -3408,23 +3429,7 @@ void Interpreter::call_copy_constructor(const std::string &var_name,
                       "No constructor defined for struct: %s, using ");
         }
         // コピーコンストラクタがない場合は、メンバーワイズコピーを実行
-        Variable *dest_var = find_variable(var_name);
-        Variable *source_var = find_variable(source_var_name);
-        if (dest_var && source_var) {
-            dest_var->struct_members = source_var->struct_members;
-            // 個別変数も更新
-            for (const auto &[member_name, member_value] :
-                 source_var->struct_members) {
-                std::string dest_member_path = var_name + "." + member_name;
-                std::string source_member_path =
-                    source_var_name + "." + member_name;
-                Variable *dest_member = find_variable(dest_member_path);
-                Variable *source_member = find_variable(source_member_path);
-                if (dest_member && source_member) {
-                    *dest_member = *source_member;
-                }
-            }
-        }
+        memberwise_copy();
         return;
     }
 
@@ -3466,23 +3471,7 @@ void Interpreter::call_copy_constructor(const std::string &var_name,
             debug_msg(DebugMsgId::GENERIC_DEBUG,
                       "No copy constructor found for struct: %s, using ");
         }
-        Variable *dest_var = find_variable(var_name);
-        Variable *source_var = find_variable(source_var_name);
-        if (dest_var && source_var) {
-            dest_var->struct_members = source_var->struct_members;
-            // 個別変数も更新
-            for (const auto &[member_name, member_value] :
-                 source_var->struct_members) {
-                std::string dest_member_path = var_name + "." + member_name;
-                std::string source_member_path =
-                    source_var_name + "." + member_name;
-                Variable *dest_member = find_variable(dest_member_path);
-                Variable *source_member = find_variable(source_member_path);
-                if (dest_member && source_member) {
-                    *dest_member = *source_member;
-                }
-            }
-        }
+        memberwise_copy();
         return;
     }
 
